@@ -4,6 +4,7 @@ from concurrent.futures import ThreadPoolExecutor
 from common import *
 import c18_gen as g
 import c18_cmd as cm
+import c18_dmg as dm
 
 DRV_SRCS = ['cmdline/elem.c', 'cmdline/support.c', 'cmdline/unix.c', 'tommyds/tommy.c']
 
@@ -600,6 +601,14 @@ def main(tier, replay=None):
             t = j['rule_text'].encode('latin1')
             for exe in (drv, model):
                 print(exe, run_lines(exe, ['parse %s' % hx(t)], shards=1))
+        elif j.get('kind') == 'damaged-array selection':
+            lay = dm.Layout.from_seed(j['seed'], j.get('idx', 0))
+            problems, cnt = dm.run_damage_scenario(tool, model, lay, mkscratch('snapverif.c18cmd.'))
+            for tag, what, rep, noinp in problems:
+                if noinp and 'model_drift' in tag:
+                    drift(tag, what, rep)
+                else:
+                    chk.violation(tag, what, rep, no_input=noinp)
         elif 'trees' in j:
             sc = cm.Scenario.from_desc(j)
             problems, cnt = run_scenario(tool, model, drv, sc, mkscratch('snapverif.c18cmd.'))
@@ -644,6 +653,20 @@ def main(tier, replay=None):
                 if nprob <= 4:
                     chk.violation('%s_%d' % (tag, sc.idx), what, rep, no_input=noinp)
     ccnt['scenarios'] = nsc
+
+    # ---- selections on damaged arrays: nothing outside the selection is written (byte snapshots incl. every parity file)
+    lays = [dm.Layout(rng, i) for i in range(30 if thorough else 8)]
+    ndmg = 0
+    with ThreadPoolExecutor(max_workers=min(NCPU, 8)) as ex:
+        for (problems, cnt), lay in zip(ex.map(lambda l: dm.run_damage_scenario(tool, model, l, base), lays), lays):
+            ccnt.update(cnt)
+            for tag, what, rep, noinp in problems:
+                if noinp and 'model_drift' in tag:
+                    drift('%s_%d' % (tag, lay.idx), what, rep)
+                    continue
+                ndmg += 1
+                if ndmg <= 4:
+                    chk.violation('%s_%d' % (tag, lay.idx), what, rep, no_input=noinp)
 
     # ---- the refuted theorem's witness on the real binary
     rep, ok_canon, wout = replay_content_witness(tool, base)
